@@ -67,9 +67,9 @@ def run(ctx):
                 ctx.evaluations += 1
                 if ev is None:
                     ctx.count("calls_rejected_or_failed" if not call.ok else "calls_without_rescale")
-                    if not call.ok and isinstance(call.exc, AssertionError):
-                        ctx.violation(f"C23/date/AssertionError", {"input": inp.name, "kw": kw, "exc": repr(call.exc)},
-                                      f"variational_gamma raised {call.exc!r}", subcheck="date")
+                    if not call.ok:
+                        # internal errors are C35's subject (e.g. the open finding "Use fewer rescaling intervals")
+                        ctx.extra.setdefault("failed_calls", {})[f"{inp.name}/{sorted(kw.items())}"] = repr(call.exc)[:160]
                     continue
                 ev["tid"] = f"{inp.name}/rephase{rep}/{sorted(kw.items())}"
                 events.append(ev)
